@@ -374,32 +374,66 @@ func ruleC02Decomp(e *Env) {
 
 // loopBoundedBy: block b lies in a loop whose counter runs 0,1,2… while counter < bound.
 func loopBoundedBy(b *ssa.BasicBlock, bound ssa.Value) bool {
+	// the block b runs exactly `bound` times: a unit-step counter whose continue-condition is, in either operand order,
+	//   up:   phi(0, i+1) with i < bound / i != bound,   phi(1, i+1) with i <= bound
+	//   down: phi(bound, i-1) with i > 0 / i != 0 / i >= 1
 	for _, blk := range b.Parent().Blocks {
 		iff, ok := blk.Instrs[len(blk.Instrs)-1].(*ssa.If)
 		if !ok {
 			continue
 		}
 		cmp, ok := iff.Cond.(*ssa.BinOp)
-		if !ok || cmp.Op != token.LSS || cmp.Y != bound {
+		if !ok {
 			continue
 		}
-		ph, ok := cmp.X.(*ssa.Phi)
-		if !ok || len(ph.Edges) != 2 {
+		op, x, y := cmp.Op, cmp.X, cmp.Y
+		if _, isPhi := x.(*ssa.Phi); !isPhi { // mirror so that the counter is on the left
+			x, y = y, x
+			switch op {
+			case token.LSS:
+				op = token.GTR
+			case token.GTR:
+				op = token.LSS
+			case token.LEQ:
+				op = token.GEQ
+			case token.GEQ:
+				op = token.LEQ
+			}
+		}
+		ph, ok := x.(*ssa.Phi)
+		if !ok || len(ph.Edges) != 2 || ph.Block() != blk {
 			continue
 		}
-		k0, ok0 := flow.ConstInt(ph.Edges[0])
-		inc, ok1 := ph.Edges[1].(*ssa.BinOp)
-		if !ok0 || k0 != 0 || !ok1 || inc.Op != token.ADD || inc.X != ssa.Value(ph) {
+		var init ssa.Value
+		var inc *ssa.BinOp
+		for k, e := range ph.Edges {
+			if bo, isBo := e.(*ssa.BinOp); isBo && bo.X == ssa.Value(ph) && (bo.Op == token.ADD || bo.Op == token.SUB) {
+				inc = bo
+				init = ph.Edges[1-k]
+			}
+		}
+		if inc == nil {
 			continue
 		}
-		if k1, ok := flow.ConstInt(inc.Y); !ok || k1 != 1 {
+		step, okS := flow.ConstInt(inc.Y)
+		if !okS {
 			continue
 		}
-		body := blk.Succs[0]
-		if (body == b || body.Dominates(b)) && inc.Block() == b || body == b {
+		if inc.Op == token.SUB {
+			step = -step
+		}
+		body := blk.Succs[0] // the condition continues on its true edge
+		if !(body == b || body.Dominates(b)) {
+			continue
+		}
+		i0, initConst := flow.ConstInt(init)
+		lim, limConst := flow.ConstInt(y)
+		switch {
+		case step == 1 && initConst && i0 == 0 && (op == token.LSS || op == token.NEQ) && y == bound:
 			return true
-		}
-		if body.Dominates(b) {
+		case step == 1 && initConst && i0 == 1 && op == token.LEQ && y == bound:
+			return true
+		case step == -1 && init == bound && limConst && (lim == 0 && (op == token.GTR || op == token.NEQ) || lim == 1 && op == token.GEQ):
 			return true
 		}
 	}
